@@ -42,7 +42,8 @@ class C05(Prop):
         "on the round function or the graph; (b) composition: in an acyclic network of order-insensitive processes "
         "(output bags a function of input bags) any two complete behaviours carry equal bags on every port. "
         "Order-insensitivity is a theorem for GatherStep, LoopOutputStep, the flat dot product and the cartesian product "
-        "(C05_contract_*: corollaries of the C01/C06/C02 models, in their own token types); it stays an assumption for "
+        "(C05_contract_*: corollaries of the C01/C06/C02 models, in their own token types); C05_mixed_bags_partial links "
+        "the operational network of log machines to such per-machine statements; it stays an assumption for "
         "ExecuteStep with concurrent jobs, LoopCombinatorStep and the embedding of those models into the network's "
         "histories; for tag-grouping steps it needs the shape "
         "hypothesis, shown necessary by a refutation witness. Tied to /repo by running each generated workflow under "
